@@ -185,7 +185,8 @@ namespace OP2Utility::Archive
 
 		// Seek to beginning of first internal chunk (provided it exists)
 		// Note: this seeks past the initial format tag (such as RIFF and WAVE)
-		uint32_t currentPosition = sizeof(RiffHeader);
+		// 64 bit position: a chunk length near UINT32_MAX must not wrap the position back into the file
+		uint64_t currentPosition = sizeof(RiffHeader);
 		seekableStreamReader.Seek(currentPosition);
 
 		ChunkHeader header;
